@@ -164,6 +164,22 @@ def float_section(b, tier):
                 if ty == "f32" and tier == "thorough" and n32 < 8 and pi in (0, 1, 2, 6):
                     d.tags.append("sweep32")
                     n32 += 1
+        # expression-valued bounds (the generator splices them into its own arithmetic: operator precedence, parenthesised / unary forms)
+        esup = [f"const BASE: {ty} = 4.0; const STEP: {ty} = 2.0;"]
+        lows = [("BASE + STEP", Fraction(6)), ("BASE - STEP", Fraction(2)), ("BASE - 3.0", Fraction(1)), ("(BASE + STEP)", Fraction(6)), ("-BASE + 1.0", Fraction(-3)), ("-(BASE - 1.0)", Fraction(-3)),
+                ("BASE * 0.5 - 1.0", Fraction(1)), ("1.0 + 2.0", Fraction(3)), ("-BASE", Fraction(-4)), ("BASE / STEP", Fraction(2)), ("{ BASE + STEP }", Fraction(6)), ("(BASE) + (STEP)", Fraction(6))]
+        ups = [("8.0", Fraction(8)), ("BASE + BASE", Fraction(8)), ("BASE * STEP + 1.0", Fraction(9)), ("(BASE + STEP) + 2.5", Fraction(17, 2)), ("16.0 - BASE - STEP", Fraction(10)), ("-1.0 + 10.0", Fraction(9))]
+        for li, (lt, lv) in enumerate(lows):
+            for ui, (ut, uv) in enumerate(ups):
+                if tier == "quick" and (li + ui + ti) % 2 != 0:
+                    continue
+                lk = ["greater_or_equal", "greater"][(li + ui) % 2]
+                uk = ["less_or_equal", "less"][(li + ui // 2) % 2]
+                items = [(lk, lt, lv), (uk, ut, uv)]
+                mk(items if (li + ui) % 3 else items[::-1], finite_at=[None, 0][(li + ui) % 2], sup=esup)
+        for li, (lt, lv) in enumerate(lows):
+            mk([(["greater_or_equal", "greater"][li % 2], lt, lv)], finite_at=[None, 1][li % 2], sup=esup)
+            mk([(["less", "less_or_equal"][li % 2], lt, lv)], finite_at=[0, None][li % 2], sup=esup)
         # const-valued bounds
         mk([("greater", "LO", Fraction(-7)), ("less", "HI", Fraction(7))], sup=[f"const LO: {ty} = -7.0; const HI: {ty} = 7.0;"])
         mk([("greater_or_equal", "LO", Fraction(1, 4))], finite_at=1, sup=[f"const LO: {ty} = 0.25;"])
